@@ -19,6 +19,11 @@ CLAIMS = {
   'design_ref': 'DESIGN.md section 4 / C02',
   'note': 'Trusted: extern contracts of struct, bytes.decode, zlib.decompress, socket.inet_ntoa, StreamReader.readexactly, async_timeout, asyncio task cancellation semantics; single-threaded cooperative scheduling; the handler obligation is a syntactic exit-path rule over the awaited expressions (stated in contracts/C02.py). Not decided: memory exhaustion by a huge well-formed length prefix.',
  },
+ 'C20': {
+  'text': 'Proof over reals/integers. The real refill(), one iteration of take_tokens (loop contract), add_tokens, copy_tokens, create_limiter and the Network functions that install limiters are executed symbolically from arbitrary states satisfying the window invariant J (ghost: bytes granted since an arbitrary reference instant s, whether a stamping refill happened since s); each must re-establish J and the cap 0 <= bucket <= L. J and last_refill <= clock give granted(s,e) <= L*(te-ts) + L for ALL request sequences, gaps and clock readings - the quantifier single refill/take unit tests cannot reach. Also: refill and decrement are one atomic section, copy_tokens never mints tokens, all connections share one limiter object, unlimited never waits, and a waiter gains a positive amount per sleep (bounded wait).',
+  'design_ref': 'DESIGN.md section 4 / C20',
+  'note': 'Assumed: floats as reals (A-float), time.monotonic non-decreasing, sleep advances the clock, limits >= 1 KiB/s. One recorded known finding (2 obligations, one witness class): after lowering the limit and idling, L + 128 bytes are granted in zero time; the bound with one extra 128-byte chunk is proved. Not decided: fairness among several waiters; bound across k limit changes beyond no-mint.',
+ },
 }
 
 NA_DEFAULT = 'check not built yet (work in progress; see DESIGN.md section 4 for the planned contracts)'
